@@ -29,33 +29,7 @@ type PureCase struct {
 	IntNumbers bool `json:"intNumbers,omitempty"`
 }
 
-// intify turns whole float64 numbers into int64 (every third into int).
-func intify(v interface{}, n *int) interface{} {
-	switch vv := v.(type) {
-	case float64:
-		if vv == float64(int64(vv)) && vv < 1e15 && vv > -1e15 {
-			*n++
-			if *n%3 == 0 {
-				return int(vv)
-			}
-			return int64(vv)
-		}
-		return vv
-	case map[string]interface{}:
-		m := make(map[string]interface{}, len(vv))
-		for _, k := range jsongen.SortedKeys(vv) {
-			m[k] = intify(vv[k], n)
-		}
-		return m
-	case []interface{}:
-		a := make([]interface{}, len(vv))
-		for i, x := range vv {
-			a[i] = intify(x, n)
-		}
-		return a
-	}
-	return v
-}
+func intify(v interface{}, n *int) interface{} { return jsongen.Intify(v, n) }
 
 var invalidPatterns = []interface{}{
 	[]interface{}{"?x", "?y"},
@@ -117,6 +91,14 @@ func genPure(t *rapid.T) PureCase {
 }
 
 func genPure1(t *rapid.T) PureCase {
+	if rapid.IntRange(0, 7).Draw(t, "distractorShape") == 0 {
+		// an array member that matches the beginning of a pattern member,
+		// binds a variable and then fails, beside the member that matches:
+		// which of them is tried first depends on map order, the outcome
+		// must not
+		d := genDistractor(t)
+		return PureCase{Pattern: d.Pattern, Message: d.Message, Bindings: map[string]interface{}{}, Shape: "distractor"}
+	}
 	vo := jsongen.Opts{Depth: 2, Width: 3}
 	switch rapid.IntRange(0, 5).Draw(t, "shape") {
 	case 0, 1:
